@@ -129,6 +129,7 @@ class VLoop(asyncio.SelectorEventLoop):
         self._seq = 0
         self.set_task_factory(self._factory)
         self.on_res = None
+        self.on_endpoint = None
 
     # ---- time --------------------------------------------------------------
     def time(self):
@@ -217,6 +218,8 @@ class VLoop(asyncio.SelectorEventLoop):
         self.transports.append(tr)
         self.log_res("open", "endpoint", tr.id)
         protocol.connection_made(tr)
+        if self.on_endpoint:
+            self.on_endpoint(tr, protocol)
         return tr, protocol
 
     def open_transports(self):
